@@ -45,6 +45,9 @@ pub struct C14Case {
     /// an unchecked entry point: the checked ones must keep refusing them
     #[serde(default)]
     pub unchecked_prefix: Vec<u8>,
+    /// for the constructor entry points: valid signals (indices into SAFE) listed before `n`
+    #[serde(default)]
+    pub list_before: Vec<u8>,
 }
 
 pub fn numbers() -> Vec<i32> {
@@ -65,8 +68,12 @@ pub fn strategy() -> BoxedStrategy<C14Case> {
         ],
         vec(0u8..6, 0..5),
         prop_oneof![3 => Just(vec![]), 2 => vec(0u8..3, 1..3)],
+        prop_oneof![1 => Just(vec![]), 1 => vec(0u8..6, 1..4)],
     )
-        .prop_map(|(entry, n, prefix, unchecked_prefix)| C14Case { entry, n, prefix, unchecked_prefix })
+        .prop_map(|(entry, n, prefix, unchecked_prefix, list_before)| {
+            let list_before = if matches!(entry, 9 | 10 | 11 | 13) { list_before } else { vec![] };
+            C14Case { entry, n, prefix, unchecked_prefix, list_before }
+        })
         .boxed()
 }
 
@@ -176,6 +183,9 @@ fn child(case: &C14Case, fd: i32) {
     let flag = Arc::new(AtomicBool::new(false));
     let uflag = Arc::new(AtomicUsize::new(0));
     let n = case.n;
+    let mut list: Vec<c_int> = case.list_before.iter().map(|i| SAFE[*i as usize % SAFE.len()]).collect();
+    list.push(n);
+    let list = list;
     let mut handed_fds: Vec<i32> = Vec::new();
     let mut keep: Vec<Box<dyn std::any::Any>> = Vec::new();
     let mut raw_keep: Vec<i32> = Vec::new();
@@ -221,17 +231,17 @@ fn child(case: &C14Case, fd: i32) {
                 outcome_of(std::panic::catch_unwind(|| signal_hook::low_level::pipe::register_raw(n, p[1]))).0
             }
             9 => {
-                let (o, v) = outcome_of(std::panic::catch_unwind(|| Signals::new(&[n])));
+                let (o, v) = outcome_of(std::panic::catch_unwind(|| Signals::new(&list)));
                 if let Some(v) = v { keep.push(Box::new(v)); }
                 o
             }
             10 => {
-                let (o, v) = outcome_of(std::panic::catch_unwind(|| SignalsInfo::<WithRawSiginfo>::new(&[n])));
+                let (o, v) = outcome_of(std::panic::catch_unwind(|| SignalsInfo::<WithRawSiginfo>::new(&list)));
                 if let Some(v) = v { keep.push(Box::new(v)); }
                 o
             }
             11 => {
-                let (o, v) = outcome_of(std::panic::catch_unwind(|| SignalsInfo::<WithOrigin>::new(&[n])));
+                let (o, v) = outcome_of(std::panic::catch_unwind(|| SignalsInfo::<WithOrigin>::new(&list)));
                 if let Some(v) = v { keep.push(Box::new(v)); }
                 o
             }
@@ -244,7 +254,7 @@ fn child(case: &C14Case, fd: i32) {
                 handed_fds.push(r.as_raw_fd());
                 handed_fds.push(w.as_raw_fd());
                 let (o, v) = outcome_of(std::panic::catch_unwind(std::panic::AssertUnwindSafe(|| {
-                    signal_hook::iterator::backend::SignalDelivery::with_pipe(r, w, signal_hook::iterator::exfiltrator::SignalOnly::default(), &[n])
+                    signal_hook::iterator::backend::SignalDelivery::with_pipe(r, w, signal_hook::iterator::exfiltrator::SignalOnly::default(), &list)
                 })));
                 if let Some(v) = v { keep.push(Box::new(v)); }
                 o
@@ -267,7 +277,9 @@ fn child(case: &C14Case, fd: i32) {
     let d1 = dispositions();
     let mut changed: Vec<usize> = Vec::new();
     for i in 0..64 {
-        if d0[i] != d1[i] {
+        // valid signals listed before the refused one are taken over before the refusal and the
+        // library never hands a signal back: not "changed by the refusal"
+        if d0[i] != d1[i] && !list[..list.len() - 1].contains(&((i + 1) as c_int)) {
             changed.push(i + 1);
         }
     }
@@ -340,11 +352,14 @@ pub fn run_case(case: &C14Case) -> CaseReport {
     let entry = ENTRIES[case.entry as usize % 16];
     let exp = expect(case.entry % 16, case.n);
     let find = |k: &str| recs.iter().find(|r| r["k"] == k);
-    rep.hash = hash_of(&(case.entry, case.n, &case.prefix, &case.unchecked_prefix));
+    rep.hash = hash_of(&(case.entry, case.n, &case.prefix, &case.unchecked_prefix, &case.list_before));
+    if !case.list_before.is_empty() {
+        rep.class("constructor-list-with-valid-prefix");
+    }
     if !case.unchecked_prefix.is_empty() {
         rep.class("after-unchecked-registration");
     }
-    rep.nontrivial = exp != Expect::Ok && case.entry < 14 && (!case.prefix.is_empty() || !case.unchecked_prefix.is_empty());
+    rep.nontrivial = exp != Expect::Ok && case.entry < 14 && (!case.prefix.is_empty() || !case.unchecked_prefix.is_empty() || !case.list_before.is_empty());
     rep.class(match exp {
         Expect::Panic => "expect-panic",
         Expect::Err => "expect-err",
@@ -444,7 +459,20 @@ fn extra(def: &PropDef, args: &WorkerArgs, report: &mut WorkerReport) {
     for entry in 0..16u8 {
         for n in &nums {
             for p in &prefixes {
-                let case = C14Case { entry, n: *n, prefix: p.clone(), unchecked_prefix: vec![] };
+                let case = C14Case { entry, n: *n, prefix: p.clone(), unchecked_prefix: vec![], list_before: vec![] };
+                let rep = run_case(&case);
+                if let Some(v) = report.absorb(def, &rep, &known) {
+                    report.violation = Some((v.key, v.msg, serde_json::to_value(&case).unwrap()));
+                    return;
+                }
+            }
+        }
+    }
+    // every constructor x refused boundary numbers, listed after one or two valid signals
+    for entry in [9u8, 10, 11, 13] {
+        for n in [-1, 0, 4, 9, 19, 32, 65, 127, 128, 1 << 20] {
+            for lb in [vec![1u8], vec![0, 3]] {
+                let case = C14Case { entry, n, prefix: vec![], unchecked_prefix: vec![], list_before: lb };
                 let rep = run_case(&case);
                 if let Some(v) = report.absorb(def, &rep, &known) {
                     report.violation = Some((v.key, v.msg, serde_json::to_value(&case).unwrap()));
@@ -457,7 +485,7 @@ fn extra(def: &PropDef, args: &WorkerArgs, report: &mut WorkerReport) {
     // registration of that very signal
     for entry in 0..14u8 {
         for (k, n) in [libc::SIGILL, libc::SIGFPE, libc::SIGSEGV].iter().enumerate() {
-            let case = C14Case { entry, n: *n, prefix: vec![0], unchecked_prefix: vec![k as u8] };
+            let case = C14Case { entry, n: *n, prefix: vec![0], unchecked_prefix: vec![k as u8], list_before: vec![] };
             let rep = run_case(&case);
             if let Some(v) = report.absorb(def, &rep, &known) {
                 report.violation = Some((v.key, v.msg, serde_json::to_value(&case).unwrap()));
